@@ -98,6 +98,7 @@ loop-index)  # harmless: AddAll filled by append instead of index assignment
 	}''')"
   run "harmless: AddAll appends to its own fresh slice" 0 '0 violation' ;;
 base)  # the original tree
+  git -C "$W" rev-parse -q --verify verif-base >/dev/null || { echo "skip  base: tag verif-base is not present in /repo"; continue; }
   git -C "$W" checkout -q verif-base
   run "tag verif-base (Array.Add/AddAll, Hash.Delete/DeleteAll defects)" 1 'VIOLATION property=C08 replay=[^ ]*$'
   git -C "$W" checkout -q --detach "$(git -C /repo rev-parse HEAD)" ;;
